@@ -184,6 +184,27 @@ def main():
                         fam.append(prog(pid(), src, astp, "s", "", "", tag))
                         if not lazy:
                             fam.append(prog(pid(), src, astp, "m", "", "", tag))
+    # family P X{n,m} Q Y{k,l} R : two counted repeats on one path (the VM keeps one repeat counter per fiber; `.{n,m}` has its own opcodes)
+    XS2 = [(".", cls_hex(set(range(256)) - {0x0a})), ("a", "B 61 ff 0"), ("[ab]", cls_hex(set(b"ab")))]
+    reps2 = [(1, 1), (2, 2), (3, 3), (0, 1), (1, 2), (0, 2), (2, 3)] + ([] if quick else [(1, 3), (2, 4), (1, -1), (0, -1)])
+    for P in ("", "b"):
+        for Q in ("", "b", "a"):
+            for R in ("", "b"):
+                if not (P or Q or R): continue
+                for (xs, xa) in XS2:
+                    for (ys, ya) in XS2:
+                        for (a, b) in reps2:
+                            for (c, d) in reps2:
+                                for lazy in (False, True):
+                                    qs = lambda lo, hi: ("{%d,%s}" % (lo, "" if hi < 0 else hi) if lo != hi else "{%d}" % lo) + ("?" if lazy else "")
+                                    src = P + xs + qs(a, b) + Q + ys + qs(c, d) + R
+                                    lit = lambda w: ["B %02x ff 0" % ord(ch) for ch in w]
+                                    parts = lit(P) + ["R %d %d %s" % (a, b, xa)] + lit(Q) + ["R %d %d %s" % (c, d, ya)] + lit(R)
+                                    astp = " ".join(". " + p_ for p_ in parts[:-1]) + " " + parts[-1]
+                                    tag = "family-two-counted-repeats" + (":lazy" if lazy else "")
+                                    fam.append(prog(pid(), src, astp, "s", "", "", tag))
+                                    if not lazy and xs == "." and ys == ".":
+                                        fam.append(prog(pid(), src, astp, "m", "", "", tag))
     lb = 5 if quick else 6
     sp_main = ["B all %s %d" % (ALPHA.hex(), lb)]
     sp4 = ["B all %s %d" % (ALPHA.hex(), 4 if quick else 5)]
@@ -219,7 +240,7 @@ def main():
     ck.cov["programs_hitting_fiber_limit"] = limited
     ck.cov["rejected_by_compiler"] = rejected
     ck.cov["rule"] = ("programs = all regex ASTs with <=3 nodes (x greedy/lazy x /i /s x nocase, fullword, wide, ascii wide, and as `matches` operand), all ASTs "
-                      "with 4 nodes (greedy%s), the family P(X){n,m}Q; inputs = every buffer over {a,b,A,\\n,space,1} with length <= %d (<=%d for 4 nodes), "
+                      "with 4 nodes (greedy%s), the families P(X){n,m}Q and P X{n,m} Q Y{k,l} R; inputs = every buffer over {a,b,A,\\n,space,1} with length <= %d (<=%d for 4 nodes), "
                       "{a,b}^<=10 for the family, 2-byte units for wide; non-trivial = (program, buffer) pairs with an expected match") % (
                           "" if quick else " and lazy; 5 nodes over a reduced leaf set", lb, 4 if quick else 5)
     ck.assumptions += ["a lazy expression that can also match the empty string may report length 0 at an offset that has a non-empty match",
